@@ -19,6 +19,12 @@ Oracle P (written from the property statement, evaluated on the implementation o
 Model observable M: the Lean driver op FIELDCONV (FieldConv/Model.lean) on the same abstract class and payload.
 Known findings recognised narrowly (everything else alarms): F35 `c20-eager-unsupported-default`,
 F36 `c20-inner-shnf-swallowed`; their witnesses are grid cells and are therefore replayed on every run.
+
+GENERIC STREAM (implementation-only oracle; the FieldConv model has no type parameters): generic attrs classes
+`GB[T, U]` whose fields are typed T / list[T] / Optional[T] / dict[str, T] / tuple[T, int] / list[Optional[T]] x
+{no converter, K} x {required, default}, structured through a parametrisation `GB[a, b]`.  The T of the property is
+the SUBSTITUTED field type: the oracle is the same three-way rule with `hook_T := conv.structure(raw, shape(a))`.
+(`find_structure_handler` receives both the attribute and the substituted type.)
 """
 from __future__ import annotations
 
@@ -556,6 +562,143 @@ def run_random(chk, G, W, n_classes, stats, n_payloads=3):
                 run_case(chk, W, cl, fields, c, presents, raws, cut, stats, raws_py=raws_py)
 
 
+# ------------------------------------------------------------------ generic classes (implementation-only oracle)
+import typing  # noqa: E402
+
+_GT, _GU = typing.TypeVar("T"), typing.TypeVar("U")
+
+
+@attrs.define
+class GArg:
+    x: int
+
+
+G_SHAPES = {
+    "bare": lambda t: t,
+    "list": lambda t: list[t],
+    "optional": lambda t: Optional[t],
+    "dict": lambda t: dict[str, t],
+    "tuple": lambda t: tuple[t, int],
+    "list-optional": lambda t: list[Optional[t]],
+}
+G_ARGS = {"int": int, "float": float, "str": str, "bool": bool, "GArg": GArg, "list[int]": list[int]}
+G_LEAF_RAWS = {"int": ["2", 3, "zz", None], "float": ["2.5", 1, "zz"], "str": [5, "s", None], "bool": [1, "", True],
+               "GArg": [{"x": "4"}, {"x": 1}, {}, 7], "list[int]": [["1", 2], [], "zz"]}
+
+
+def g_raw(rng, shape, arg):
+    leaf = lambda: rng.choice(G_LEAF_RAWS[arg])  # noqa: E731
+    r = rng.random()
+    if r < 0.1:
+        return rng.choice([None, "boom", 7, []])
+    if shape == "bare":
+        return leaf()
+    if shape == "list":
+        return [leaf() for _ in range(rng.randint(0, 2))]
+    if shape == "optional":
+        return None if r < 0.3 else leaf()
+    if shape == "dict":
+        return {rng.choice(["k", "l"]): leaf() for _ in range(rng.randint(0, 2))}
+    if shape == "tuple":
+        return [leaf(), rng.choice([1, "2"])]
+    return [None if rng.random() < 0.3 else leaf() for _ in range(rng.randint(0, 2))]
+
+
+def g_canon(v):
+    if isinstance(v, GArg):
+        return "GArg(%s)" % g_canon(v.x)
+    if isinstance(v, (list, tuple)):
+        return type(v).__name__ + "[" + ", ".join(g_canon(x) for x in v) + "]"
+    if isinstance(v, dict):
+        return "{" + ", ".join("%s: %s" % (g_canon(k), g_canon(x)) for k, x in v.items()) + "}"
+    return "%s:%r" % (type(v).__name__, v)
+
+
+def g_make_class(fields):
+    flds = {}
+    for f in fields:
+        kw = {"type": G_SHAPES[f["shape"]]((_GT, _GU)[f["param"]])}
+        if f["conv"] is not None:
+            kw["converter"] = mk_conv(*f["conv"])
+        if f["dflt"] is not None:
+            kw["default"] = f["dflt"][0]
+        if f.get("kw_only"):
+            kw["kw_only"] = True
+        flds[f["name"]] = attrs.field(**kw)
+    return attrs.make_class("GB%d" % next(_uid), flds, bases=(typing.Generic[_GT, _GU],))
+
+
+def g_expected(conv, c, f, targs, present, raw):
+    """the property statement for one field of `GB[targs]`; T := the field's type with the parameters substituted"""
+    K = mk_conv(*f["conv"]) if f["conv"] is not None else None
+    t_sub = G_SHAPES[f["shape"]](G_ARGS[targs[f["param"]]])
+    try:
+        if not present:
+            if f["dflt"] is None:
+                return ERR
+            return K(f["dflt"][0]) if K else f["dflt"][0]
+        if K is not None:
+            return K(raw) if c["prefer"] else K(conv.structure(raw, t_sub))
+        return conv.structure(raw, t_sub)
+    except Exception:  # noqa: BLE001
+        return ERR
+
+
+def run_generic(chk, n_classes, stats):
+    r = chk.rng
+    # BaseConverter configurations first: see F52 (once a Converter has looked at `GB[a, b]`, BaseConverters treat that
+    # alias object differently); every class is fresh, so each configuration group meets an untouched alias
+    cfgs = [c for c in all_cfgs(legacy=(False,)) if not c["tuple"]]
+    cfgs.sort(key=lambda c: c["gen"])
+    for _ in range(n_classes):
+        n = r.choice([1, 2, 2, 3])
+        fields = []
+        for nm in NAMES[:n]:
+            f = {"name": nm, "shape": r.choice(sorted(G_SHAPES)), "param": r.randint(0, 1), "conv": None, "dflt": None}
+            if r.random() < 0.7:
+                f["conv"] = (r.choice(KKINDS) if r.random() < 0.4 else "tag", "K" + nm)
+            if r.random() < 0.3:
+                f["dflt"] = (r.choice([None, 0, "d", "boom"]),)
+            fields.append(f)
+        fix_kw_only(fields)
+        targs = [r.choice(sorted(G_ARGS)), r.choice(sorted(G_ARGS))]
+        for _ in range(3):
+            raws = [g_raw(r, f["shape"], targs[f["param"]]) for f in fields]
+            presents = [r.random() < 0.85 for _ in fields]
+            payload = {f["name"]: raw for f, raw, p in zip(fields, raws, presents) if p}
+            for grp in (False, True):
+                cl = g_make_class(fields)   # a fresh class (and alias object) per converter class
+                tgt = cl[G_ARGS[targs[0]], G_ARGS[targs[1]]]
+                for c in [c for c in cfgs if c["gen"] == grp]:
+                    conv = make_converter(c)
+                    try:
+                        inst = conv.structure(payload, tgt)
+                        oi = "ok " + " ".join("%s=%s" % (f["name"], g_canon(getattr(inst, f["name"]))) for f in fields)
+                    except Exception as e:  # noqa: BLE001
+                        oi, exc = "err", e
+                    per = [g_expected(conv, c, f, targs, p, raw) for f, raw, p in zip(fields, raws, presents)]
+                    oe = "err" if any(x is ERR for x in per) else \
+                        "ok " + " ".join("%s=%s" % (f["name"], g_canon(x)) for f, x in zip(fields, per))
+                    desc = " ; ".join("%s: %s[%s]%s%s" % (f["name"], f["shape"], "TU"[f["param"]],
+                                                          " conv=" + f["conv"][0] if f["conv"] else "",
+                                                          " default=%r" % (f["dflt"][0],) if f["dflt"] else "") for f in fields)
+                    chk.count("generic|" + cfg_name(c) + "|" + desc + "|" + repr(targs) + "|" + repr(payload),
+                              nontrivial=any(f["conv"] is not None for f in fields),
+                              sample={"cfg": cfg_name(c), "class": "GB[T, U]: " + desc, "args": targs, "payload": repr(payload), "impl": oi[:200]})
+                    chk.note("generic:cfg:" + cfg_name(c), "generic:outcome:" + oi[:2])
+                    for f in fields:
+                        chk.note("generic:cell:%s/%s" % (f["shape"], "K-" + f["conv"][0] if f["conv"] else "noK"))
+                    stats["generic"] += 1
+                    if oi != oe:
+                        stats["oracle_fail"] += 1
+                        chk.violation(
+                            f"C20 oracle (generic classes): structuring {payload!r} as GB[{targs[0]}, {targs[1]}] (class GB(Generic[T, U]): {desc}) "
+                            f"gives {oi[:300]}, the documented rule with T := the substituted field type gives {oe[:300]} [{cfg_name(c)}]",
+                            {"op": "generic-oracle", "cfg": c, "fields": [dict(f, dflt=repr(f["dflt"])) for f in fields], "args": targs,
+                             "payload": repr(payload), "impl": oi, "expected": oe})
+        prune_linecache()
+
+
 def run(chk: framework.Check):
     drv = lean.Driver()
     # nested world classes: no self-referential classes, and no identity field converters (`idconv`): inside a hook
@@ -563,7 +706,8 @@ def run(chk: framework.Check):
     # top-level class, whose field types are the T of the property
     G = gen.Gen(chk.rng, recursive=False)
     stats = {"oracle_fail": 0, "corr_fail": [], "corr_fail_with_oracle_fail": 0, "in_scope": 0, "out_of_scope": 0,
-             "kinds_seen": set()}
+             "kinds_seen": set(), "generic": 0}
+    run_generic(chk, 60 if chk.tier == "quick" else 600, stats)
     n_worlds, per_world = (60, 10) if chk.tier == "quick" else (600, 12)
     made = 0
     attempts = 0
@@ -600,12 +744,16 @@ def run(chk: framework.Check):
                          "absent keys}; non-trivial = the class has a field converter; distinct by canonical text")
     chk.extra["model_scope"] = {"cases_in_theorem_scope(NoLazyEscape&NoDeepSHNF)": stats["in_scope"],
                                 "cases_outside(F35/F36 regions, model still compared)": stats["out_of_scope"]}
+    chk.extra["generic_stream(implementation-only oracle)"] = stats["generic"]
     chk.extra["correspondence_mismatches"] = len(stats["corr_fail"]) + stats["corr_fail_with_oracle_fail"]
     chk.extra["oracle_failures(incl. recognised findings)"] = stats["oracle_fail"]
     drv.close()
 
 
 def replay(case):
+    if case.get("op") == "generic-oracle":
+        print("generic class case (implementation-only stream):", case)
+        return 1
     drv = lean.Driver()
     w = terms.world_from_json(case["world"])
     W = World(drv, w)
